@@ -224,9 +224,11 @@ pub fn seq_case(rng: &mut Rng, id: String) -> Case {
                     } else {
                         ops.push(format!("send {} {}", r, u64::MAX));
                     }
+                    let already = log.lock().unwrap().iter().filter(|e| **e == L::Invoke(r, u64::MAX)).count();
                     let _ = peer.send(7);
                     if live[r] && !stopped && !fwd {
-                        if !wait_for(&log, |l| l.contains(&L::Invoke(r, u64::MAX)), 5000) {
+                        // (the route may have had such a message before: wait for one more, so that the router is quiescent again)
+                        if !wait_for(&log, |l| l.iter().filter(|e| **e == L::Invoke(r, u64::MAX)).count() > already, 5000) {
                             case.fail(format!("an undecodable message on route {} never reached its callback (as an error)", r));
                         }
                     }
